@@ -11,6 +11,11 @@ package main
 //   return-recursion    return from inside loops / ifs / match bodies, no return, stale return slot,
 //                       factorial, fibonacci, mutual recursion, depth-1000 list walk; exact oracles
 //   next-exit-depth     next / exit executed k calls (and match bodies) deep, from rule bodies and patterns
+//   match-exit-paths    match bodies left by normal completion / next / exit / break / continue / return / error,
+//                       in every place, short inputs and thousands of records; oracle: unbound names, depth 0,
+//                       history independence per record
+//   argument-links      missing members / characters / unset variables as arguments to callees that update the
+//                       parameter; the caller's containers and the document never change
 //   long-history        10 000 (quick) / 200 000 (thorough) records through rules that call and match;
 //                       oracle: class ok, depth 0, END summary as simulated in Go
 
@@ -725,7 +730,469 @@ func c08Long(r *rand.Rand, n int, variant int, implOnly bool, emit func(Case)) {
 		NonTrivial: func(i Resp) bool { return i["class"] == wantClass }})
 }
 
+// ---------------------------------------------------------------- match-exit-paths
+//
+// A match statement / expression whose selected body is LEFT BY EVERY EXIT PATH
+// (normal completion of a block or an expression body, next, exit, break,
+// continue, return, a runtime error; directly, through a nested match, or through
+// a function called from an expression body), at rule level, in rule patterns,
+// in BEGIN / END / BEGINFILE / ENDFILE, inside loops, inside functions and nested
+// in each other.  Afterwards the pattern-bound names must be unbound again, the
+// frame depth must be 0, and doing it thousands of times must not change anything.
+
+type c08Exit struct {
+	name     string
+	stmt     string // the statement that leaves a block body
+	sig      string // the statement inside the signalling function of expression bodies ("" = cannot leave an expression body that way)
+	needLoop bool
+	needFn   bool
+	ends     string // "" | "run" (exit) | "error"
+}
+
+var c08Exits = []c08Exit{
+	{"normal", "print \"stay\"", "v = v", false, false, ""},
+	{"next", "next", "next", false, false, ""},
+	{"exit", "exit", "exit", false, false, "run"},
+	{"break", "break", "", true, false, ""},
+	{"continue", "continue", "", true, false, ""},
+	{"return-value", "return 1000", "", false, true, ""},
+	{"return-bare", "return", "", false, true, ""},
+	{"runtime-error", "zz = [] < 1", "zz = [] < 1", false, false, "error"},
+}
+
+const c08Unb = "print \"unb\", n is unknown, m is unknown, p is unknown, q is unknown"
+
+// c08UnitForms: name -> builder(V subject text, trig func(name) condition text, exit) -> statements ("" = not applicable)
+type c08UnitForm struct {
+	name  string
+	build func(v string, trig func(string) string, e c08Exit, k int) string
+}
+
+func c08Body(name string, trig func(string) string, e c08Exit) string {
+	return fmt.Sprintf("print \"in\", %s\n if (%s) %s\n print \"done\", %s", name, trig(name), e.stmt, name)
+}
+
+var c08UnitForms = []c08UnitForm{
+	{"stmt-block", func(v string, trig func(string) string, e c08Exit, k int) string {
+		return fmt.Sprintf("match (%s) { 99 => { print \"no\" }\n n => { %s } }", v, c08Body("n", trig, e))
+	}},
+	{"assign-block", func(v string, trig func(string) string, e c08Exit, k int) string {
+		return fmt.Sprintf("r = match (%s) { n => { %s } }\nprint \"r\", r", v, c08Body("n", trig, e))
+	}},
+	{"expr-body-call", func(v string, trig func(string) string, e c08Exit, k int) string {
+		if e.sig == "" {
+			return ""
+		}
+		return fmt.Sprintf("r = match (%s) { 99 => 0, n => sig(n) + 1 }\nprint \"r\", r", v)
+	}},
+	{"expr-body-call-array", func(v string, trig func(string) string, e c08Exit, k int) string {
+		if e.sig == "" {
+			return ""
+		}
+		return fmt.Sprintf("print \"r\", match ([%s, [7]]) { [p, [q]] => sig(p) + q }", v)
+	}},
+	{"array-pattern", func(v string, trig func(string) string, e c08Exit, k int) string {
+		return fmt.Sprintf("match ([%s, 7]) { [p, 8] => { print \"no\" }\n [p, q] => { %s } }", v, c08Body("p", trig, e))
+	}},
+	{"nested-block", func(v string, trig func(string) string, e c08Exit, k int) string {
+		return fmt.Sprintf("match (%s) { n => { print \"outer\", n\n match (n + 10) { m => { print \"inner\", m\n if (%s) %s\n print \"inner-done\" } }\n print \"outer-done\", m is unknown } }", v, trig("n"), e.stmt)
+	}},
+	{"nested-expr", func(v string, trig func(string) string, e c08Exit, k int) string {
+		return fmt.Sprintf("r = match (%s) { n => match (n) { m => { %s } } }\nprint \"r\", r", v, c08Body("m", trig, e))
+	}},
+	{"nested-three", func(v string, trig func(string) string, e c08Exit, k int) string {
+		return fmt.Sprintf("match (%s) { n => { match ([n]) { [p] => { match (p) { q => { %s } }\n print \"mid\", q is unknown } }\n print \"out\", p is unknown } }", v, c08Body("q", trig, e))
+	}},
+	{"print-arg", func(v string, trig func(string) string, e c08Exit, k int) string {
+		return fmt.Sprintf("print \"v\", match (%s) { n => { %s } }, \"tail\"", v, c08Body("n", trig, e))
+	}},
+	{"condition", func(v string, trig func(string) string, e c08Exit, k int) string {
+		return fmt.Sprintf("if (match (%s) { n => { %s } } == null) print \"cond\"", v, c08Body("n", trig, e))
+	}},
+	{"literal-case", func(v string, trig func(string) string, e c08Exit, k int) string {
+		if k < 0 {
+			return ""
+		}
+		return fmt.Sprintf("match (%s) { %d => { print \"lit\"\n %s\n print \"lit-done\" }\n n => { print \"other\", n } }", v, k, e.stmt)
+	}},
+	{"bare-exit-body", func(v string, trig func(string) string, e c08Exit, k int) string {
+		// the whole body is the exit statement; the trigger is a literal pattern
+		if k < 0 {
+			return ""
+		}
+		return fmt.Sprintf("match (%s) { %d => { %s }\n n => { print \"other\", n } }", v, k, e.stmt)
+	}},
+	{"two-in-a-row", func(v string, trig func(string) string, e c08Exit, k int) string {
+		return fmt.Sprintf("match (%s) { n => { %s } }\nmatch ([%s]) { [m] => { print \"second-match\", m, n is unknown } }", v, c08Body("n", trig, e), v)
+	}},
+	{"in-array-literal", func(v string, trig func(string) string, e c08Exit, k int) string {
+		return fmt.Sprintf("r = [1, match (%s) { n => { %s } }, 3]\nprint \"r\", r", v, c08Body("n", trig, e))
+	}},
+	{"as-argument", func(v string, trig func(string) string, e c08Exit, k int) string {
+		return fmt.Sprintf("r = idv(match (%s) { n => { %s } })\nprint \"r\", r", v, c08Body("n", trig, e))
+	}},
+}
+
+var c08Places = []string{"rule", "rule-if", "pattern", "loop-for", "loop-while", "loop-forin", "loop-nested", "function", "function-loop", "function-in-pattern", "function-in-loop",
+	"BEGIN", "END", "BEGINFILE", "ENDFILE"}
+
+func c08PlaceHasLoop(place string) bool {
+	return strings.HasPrefix(place, "loop-") || place == "function-loop"
+}
+func c08PlaceHasFn(place string) bool {
+	return strings.HasPrefix(place, "function") && place != "function-in-loop" || place == "function-in-loop"
+}
+
+// c08ExitProgram builds one program. unit(v) gives the unit statements for subject v.
+// Returns "" when the combination is not well-scoped (break outside a loop ...).
+func c08ExitProgram(place string, form c08UnitForm, e c08Exit, k int, trig func(string) string) string {
+	if e.needLoop && (!c08PlaceHasLoop(place)) {
+		return ""
+	}
+	if e.needFn && !strings.HasPrefix(place, "function") {
+		return ""
+	}
+	unit := func(v string) string { return form.build(v, trig, e, k) }
+	if unit("$") == "" {
+		return ""
+	}
+	head := "function idv(v) { return v }\nfunction sig(v) { if (" + trig("v") + ") " + e.sig + "\n return v }\n"
+	if e.sig == "" {
+		head = "function idv(v) { return v }\n"
+	}
+	second := "{ print \"second\", $\n " + c08Unb + " }\nEND { print \"END\"\n " + c08Unb + " }\n"
+	switch place {
+	case "rule":
+		return head + "{ print \"pre\", $\n " + unit("$") + "\n print \"post\", $\n " + c08Unb + " }\n" + second
+	case "rule-if":
+		return head + "{ print \"pre\", $\n if ($ >= 0) {\n " + unit("$") + "\n print \"in-if\" }\n else print \"neg\"\n print \"post\", $\n " + c08Unb + " }\n" + second
+	case "pattern":
+		if strings.Contains(unit("$"), "\nprint \"r\"") || !strings.HasPrefix(unit("$"), "match") || form.name == "two-in-a-row" {
+			return ""
+		}
+		return head + "{ print \"pre\", $ }\n" + unit("$") + " == null { print \"body\", $\n " + c08Unb + " }\n" + second
+	case "loop-for":
+		return head + "{ print \"pre\", $\n for (i = 0; i < 3; i++) { print \"it\", i\n " + unit("$ + i") + "\n print \"it-end\", i }\n print \"post\", i\n " + c08Unb + " }\n" + second
+	case "loop-while":
+		return head + "{ print \"pre\", $\n w = 0\n while (w < 3) { w++\n " + unit("$ + w - 1") + "\n print \"w-end\", w }\n print \"post\", w\n " + c08Unb + " }\n" + second
+	case "loop-forin":
+		return head + "{ print \"pre\", $\n for (x, xi in [$, $ + 1, $ + 2]) { print \"x\", xi\n " + unit("x") + "\n print \"x-end\", xi }\n print \"post\", xi\n " + c08Unb + " }\n" + second
+	case "loop-nested":
+		return head + "{ print \"pre\", $\n for (i = 0; i < 2; i++) { for (ch, j in \"ab\") { print \"it\", i, j\n " + unit("$ + i + j") + "\n print \"it-end\", i, j }\n print \"outer-end\", i }\n print \"post\", i, j\n " + c08Unb + " }\n" + second
+	case "function":
+		return head + "function fn(v) { print \"fn\", v\n " + unit("v") + "\n print \"fn-done\", v\n " + c08Unb + "\n return v + 100 }\n{ print \"pre\", $\n w = fn($)\n print \"post\", w\n " + c08Unb + " }\n" + second
+	case "function-loop":
+		return head + "function fn(v) { for (i = 0; i < 3; i++) { print \"fn-it\", i\n " + unit("v + i") + "\n print \"fn-it-end\", i }\n print \"fn-done\", v, i\n return v + 100 }\n{ print \"pre\", $\n w = fn($)\n print \"post\", w\n " + c08Unb + " }\n" + second
+	case "function-in-pattern":
+		return head + "function fn(v) { print \"fn\", v\n " + unit("v") + "\n print \"fn-done\", v\n return v + 100 }\n{ print \"pre\", $ }\nfn($) >= 0 { print \"body\", $\n " + c08Unb + " }\n" + second
+	case "function-in-loop":
+		return head + "function fn(v) { print \"fn\", v\n " + unit("v") + "\n print \"fn-done\", v\n return v + 100 }\n{ print \"pre\", $\n for (i = 0; i < 3; i++) { w = fn($ + i)\n print \"w\", w }\n print \"post\", i\n " + c08Unb + " }\n" + second
+	case "BEGIN", "END", "BEGINFILE", "ENDFILE":
+		kk := k
+		if kk < 0 {
+			kk = 1
+		}
+		return head + fmt.Sprintf("%s { print \"pre\", %d\n %s\n print \"post-a\"\n %s }\n%s { print \"pre\", %d\n %s\n print \"post-b\"\n %s }\n%s { print \"third\"\n %s }\n{ print \"rule\", $\n %s }\nEND { print \"END\"\n %s }\n",
+			place, kk+1, unit(fmt.Sprint(kk+1)), c08Unb, place, kk, unit(fmt.Sprint(kk)), c08Unb, place, c08Unb, c08Unb, c08Unb)
+	}
+	return ""
+}
+
+// c08ExitOracle: class as expected, depth 0, every "unb" line all true, and the output
+// block of a record depends only on the record's value (blocks start with "pre <value>").
+func c08ExitOracle(e c08Exit, mayTrigger bool) func(Resp) string {
+	return func(i Resp) string {
+		cl := i["class"]
+		switch {
+		case cl == "runtime" && strings.Contains(i["msg"], "call_depth"):
+			return "call depth limit hit although no calls or matches are nested deeper than 4: " + i["msg"]
+		case e.ends == "error" && mayTrigger && (cl == "runtime" || cl == "ok"):
+			// the error of the match body, if the trigger value was reached (the model comparison decides which)
+		case cl != "ok":
+			return "expected class ok, got " + cl + " " + i["msg"]
+		}
+		if cl == "ok" && i["depth"] != "0" {
+			return "frame depth after the run is " + i["depth"] + ", expected 0"
+		}
+		out := string(i.Bytes("out"))
+		if k := strings.Index(out, "END\n"); k >= 0 && (k == 0 || out[k-1] == '\n') {
+			for _, l := range strings.Split(out[k:], "\n") {
+				if strings.HasPrefix(l, "unb ") && l != "unb true true true true" {
+					return "in END a name bound by a match pattern is still visible: " + l
+				}
+			}
+			out = out[:k]
+		}
+		blocks := map[string]string{}
+		var cur, key string
+		flush := func() string {
+			if key == "" {
+				return ""
+			}
+			if prev, ok := blocks[key]; ok && prev != cur {
+				return fmt.Sprintf("the output for a record depends on the history: record %q gave %q earlier and %q later", key, c07Short(prev), c07Short(cur))
+			}
+			blocks[key] = cur
+			return ""
+		}
+		lines := strings.SplitAfter(out, "\n")
+		for li, l := range lines {
+			if strings.HasPrefix(l, "unb ") && strings.TrimSpace(l) != "unb true true true true" {
+				return fmt.Sprintf("a name bound by a match pattern is still visible after the match (output line %d): %s", li+1, strings.TrimSpace(l))
+			}
+			if strings.HasPrefix(l, "pre ") {
+				if w := flush(); w != "" {
+					return w
+				}
+				cur, key = "", l
+			}
+			cur += l
+		}
+		if cl == "ok" && e.ends == "" {
+			// the last block is complete too
+			if w := flush(); w != "" {
+				return w
+			}
+		}
+		return ""
+	}
+}
+
+func c08ExitCase(place string, form c08UnitForm, e c08Exit, k int, recs []int, long bool, emit func(Case)) bool {
+	trig := func(name string) string { return fmt.Sprintf("%s == %d", name, k) }
+	prog := c08ExitProgram(place, form, e, k, trig)
+	if prog == "" {
+		return false
+	}
+	parts := make([]string, len(recs))
+	for i, v := range recs {
+		parts[i] = strconv.Itoa(v)
+	}
+	doc := "[" + strings.Join(parts, ",") + "]"
+	in := doc
+	if len(in) > 120 {
+		in = fmt.Sprintf("array of %d records: %s…", len(recs), doc[:100])
+	}
+	wantClass := "ok"
+	if e.ends == "error" {
+		wantClass = "runtime"
+	}
+	emit(Case{Req: RunReq(prog, nil, []File{{Name: "in.json", Data: []byte(doc)}}, false), Fields: c08Fields,
+		Meta:       metaProg(prog, "input", in, "place", place, "match-form", form.name, "exit-path", e.name, "trigger-value", fmt.Sprint(k), "row", e.name, "col", place),
+		Oracle:     c08ExitOracle(e, true),
+		NonTrivial: func(i Resp) bool { return i["class"] == wantClass || i["class"] == "ok" }})
+	return true
+}
+
+func c08GenExitPaths(r *rand.Rand, tier string, emit func(Case)) {
+	// short inputs: every place x unit form x exit path, trigger on one of the values the unit sees (or never)
+	for _, place := range c08Places {
+		for _, form := range c08UnitForms {
+			for _, e := range c08Exits {
+				reps := tierN(tier, 2, 6)
+				for i := 0; i < reps; i++ {
+					k := r.Intn(4)
+					if i == reps-1 && chance(r, 0.3) {
+						k = -1 // never triggered: only normal completion
+					}
+					var recs []int
+					for j, n := 0, 2+r.Intn(7); j < n; j++ {
+						recs = append(recs, r.Intn(3))
+					}
+					c08ExitCase(place, form, e, k, recs, false, emit)
+				}
+			}
+		}
+	}
+	// long histories: the exit path taken at every record (or every second one) of a long input.
+	// quick: one input of just over 4096 records per place x exit path (every record takes the path)
+	// and a dozen of 10 000 records; thorough: every size
+	long := func(place string, e c08Exit, n, period int) {
+		form := pick(r, c08UnitForms)
+		k := r.Intn(period)
+		recs := make([]int, n)
+		for i := range recs {
+			recs[i] = i % period
+		}
+		if e.ends != "" {
+			// exit and the runtime error end the run: all records complete normally, the last one triggers
+			for i := range recs {
+				recs[i] = 0
+			}
+			k = 1
+			recs[n-1] = 1
+		}
+		for tries := 0; tries < 20 && !c08ExitCase(place, form, e, k, recs, true, emit); tries++ {
+			form = pick(r, c08UnitForms)
+		}
+	}
+	for _, place := range c08Places[:11] {
+		for _, e := range c08Exits {
+			if tier == "thorough" {
+				for _, n := range []int{4095, 4096, 4097, 5000, 10000, 20000, 50000} {
+					long(place, e, n, 1+r.Intn(2))
+				}
+				continue
+			}
+			long(place, e, pick(r, []int{4097, 4098, 4100, 4500}), 1)
+			if chance(r, 0.15) {
+				long(place, e, 10000, 2)
+			}
+		}
+	}
+}
+
+// ---------------------------------------------------------------- argument-links
+//
+// Arguments that are not plain values: a MISSING member / index / nested chain
+// (a null that remembers where it would be created), a character of a string, a
+// past-the-end character, an unset variable, a method value.  The callee assigns
+// to its parameter, ++ / compound-assigns it, passes it on, binds it in a match,
+// stores it; the caller's containers and the document must not change.
+
+var c08LinkArgs = []string{"$.nick", "$[9]", "$.a.b.c", "$.name.x", "$.tags[5]", "$.tags[-9 + 9 + 7]", "o.x", "o.n.zz", "o.x.y.z", "o['x']", "o[5]", "arr[9]", "arr[1][5]", "arr[9][9]", "arr[2]",
+	"s[1]", "s[9]", "s[0]", "s.x", "u", "(o.x)", "match (1) { _ => o.x }", "match (o.x) { v => v }", "[o.x][0]", "{k: arr[9]}.k", "idl(o.x)", "o.n.m.deep", "$.name[0]", "$.name[7]", "arr[1].k",
+	"arr.push", "o.length", "s.upper"}
+
+type c08Callee struct{ name, def string }
+
+var c08LinkCallees = []c08Callee{
+	{"set", "function set(p) { p = 'n/a'\n return p }"},
+	{"dflt", "function dflt(p) { if (p == null) { p = 'd' }\n return p }"},
+	{"inc", "function inc(p) { p++\n return p }"},
+	{"pre", "function pre(p) { q = ++p\n return q }"},
+	{"dec", "function dec(p) { p--\n w = --p\n return p }"},
+	{"plus", "function plus(p) { p += 1\n return p }"},
+	{"times", "function times(p) { p *= 2\n p -= 1\n p /= 2\n return p }"},
+	{"pass", "function set(p) { p = 'n/a'\n return p }\nfunction pass(p) { return set(p) }"},
+	{"pass2", "function inc(p) { p++\n return p }\nfunction pass2(p) { x = inc(p)\n p = x\n return inc(p) }"},
+	{"bind", "function bind(p) { match (p) { v => { v = 5 } }\n return p }"},
+	{"bindarr", "function bindarr(p) { match ([p, 1]) { [v, w] => { v = 5\n w = v } }\n return p }"},
+	{"copyset", "function copyset(p) { q = p\n q = 1\n p = q + 1\n return q }"},
+	{"loop", "function loop(p) { for (i = 0; i < 2; i++) p += 1\n return p }"},
+	{"forin", "function forin(p) { for (e in [p]) { e = 1 }\n for (e in [1, 2]) { p = e }\n return p }"},
+	{"store", "function store(p) { keep = [p, {k: p}]\n keep[0] = 3\n keep[1].k = 4\n p = keep[0]\n return keep }"},
+	{"second", "function second(x, p) { p = x\n x = 'x'\n return p }"},
+	{"member", "function member(p) { p.k = 1\n return p }"},
+	{"index", "function index(p) { p[0] = 1\n return p }"},
+	{"ret", "function ret(p) { return p }"},
+	{"swap", "function swap(p, q) { t = p\n p = q\n q = t\n return [p, q] }"},
+}
+
+const c08LinkShow = "print 'A', o, arr, s, u is unknown, $"
+
+func c08LinkCase(r *rand.Rand, emit func(Case)) {
+	doc := pick(r, []string{`{"name": "bob"}`, `{"name": "bob", "tags": ["x", "y"], "a": {"z": 1}}`, `{"name": "", "a": null, "tags": []}`})
+	root := doc
+	if chance(r, 0.5) {
+		root = "[" + doc + "]"
+	}
+	n := 1 + r.Intn(3)
+	defs := map[string]bool{}
+	var funcs []string
+	var body strings.Builder
+	body.WriteString("  o = {a: 1, n: {m: 2}}\n  arr = [1, [2]]\n  s = 'ab'\n  " + c08LinkShow + "\n")
+	var desc []string
+	for k := 0; k < n; k++ {
+		c := pick(r, c08LinkCallees)
+		if (c.name == "member" || c.name == "index") && !chance(r, 0.3) {
+			c = pick(r, c08LinkCallees[:16]) // these two fail on a null parameter: keep them rare
+		}
+		if !defs[c.name] {
+			defs[c.name] = true
+			funcs = append(funcs, c.def)
+		}
+		arg := pick(r, c08LinkArgs)
+		if strings.Contains(arg, "push") || strings.Contains(arg, ".length") || strings.Contains(arg, ".upper") {
+			if !chance(r, 0.2) {
+				arg = pick(r, c08LinkArgs[:30])
+			}
+		}
+		call := c.name + "(" + arg + ")"
+		switch c.name {
+		case "second":
+			call = "second(" + pick(r, c08LinkArgs[:30]) + ", " + arg + ")"
+		case "swap":
+			call = "swap(" + arg + ", " + pick(r, c08LinkArgs[:30]) + ")"
+		}
+		desc = append(desc, call)
+		switch r.Intn(4) {
+		case 0:
+			body.WriteString("  print 'R', " + call + "\n")
+		case 1:
+			body.WriteString("  r = " + call + "\n  r = 7\n  print 'R', r\n")
+		case 2:
+			body.WriteString("  r = [" + call + ", " + call + "]\n  print 'R', r\n")
+		default:
+			body.WriteString("  got = []\n  got.push(" + call + ")\n  got[0] = 9\n  print 'R', got\n")
+		}
+		body.WriteString("  " + c08LinkShow + "\n")
+	}
+	// the set of function texts may define `set` / `inc` twice (pass, pass2 bring their own): dedupe by line
+	seen := map[string]bool{}
+	var fl []string
+	for _, f := range funcs {
+		for _, part := range strings.Split(f, "\nfunction ") {
+			if !strings.HasPrefix(part, "function ") {
+				part = "function " + part
+			}
+			name := part[:strings.Index(part, "(")]
+			if !seen[name] {
+				seen[name] = true
+				fl = append(fl, part)
+			}
+		}
+	}
+	prog := "function idl(x) { return x }\n" + strings.Join(fl, "\n") + "\n{\n" + body.String() + "}\nEND { print 'E', o, arr, s }\n"
+	docB := []byte(root)
+	emit(Case{Req: RunReq(prog, nil, []File{{Name: "in.json", Data: docB}}, true), Fields: []string{"class", "out", "depth", "json"},
+		Meta: metaProg(prog, "input", root, "calls", strings.Join(desc, " ; "), "row", strings.SplitN(desc[0], "(", 2)[0]),
+		Oracle: func(i Resp) string {
+			if i["class"] != "ok" && i["class"] != "runtime" {
+				return "class " + i["class"] + " " + i["msg"]
+			}
+			first := ""
+			for _, l := range strings.Split(string(i.Bytes("out")), "\n") {
+				if strings.HasPrefix(l, "A ") {
+					if first == "" {
+						first = l
+					} else if l != first {
+						return fmt.Sprintf("a callee working on its parameter changed the caller's data: before %q, after %q", first, l)
+					}
+				}
+			}
+			if i["class"] == "ok" {
+				if i["depth"] != "0" {
+					return "frame depth after the run is " + i["depth"]
+				}
+				same, err := c09SameJSON(i.Bytes("json"), docB)
+				if err != nil {
+					return "-o is not valid JSON: " + err.Error()
+				}
+				if !same {
+					return "a callee working on its parameter changed the input document: -o = " + short(string(i.Bytes("json")))
+				}
+			}
+			return ""
+		},
+		NonTrivial: func(i Resp) bool { return i["class"] == "ok" || i["class"] == "runtime" }})
+}
+
 func init() {
+	register(Family{
+		Name: "argument-links", Prop: "C08",
+		Rule: "1-3 calls whose argument is a missing member / index / nested chain of a variable's object or array or of the document ($.nick, $[9], $.a.b.c, o.x.y.z, arr[9][9]), a character or past-the-end character of a string, an unset variable, such a value handed on by a match expression / literal / function, or a method value, to one of 20 callees that assign the parameter, default it when null, ++ / -- / compound-assign it, pass it on to another callee, bind it in a match, copy it, store it in containers, swap two parameters, or set a member / index on it; the result is printed, reassigned, put in a literal or pushed and overwritten; the caller's containers and the document are printed before and after each call. Oracle (implementation only): those prints never change, depth 0, and the -o document equals the input; model comparison on class, out, depth and the -o document",
+		Gen: func(r *rand.Rand, tier string, emit func(Case)) {
+			for i, n := 0, tierN(tier, 3000, 40000); i < n; i++ {
+				c08LinkCase(r, emit)
+			}
+		},
+	})
+	register(Family{
+		Name: "match-exit-paths", Prop: "C08",
+		Rule: "a match statement or expression (15 forms: block body, assigned, expression body calling a signalling function, array patterns, nested in each other two and three deep, as print argument, condition, array element, call argument, literal case, body that is only the exit statement, two in a row) whose selected body is left by each of 8 exit paths (normal completion, next, exit, break, continue, return with and without value, runtime error) when the bound value equals a trigger value, placed at rule level, under an if, in a rule pattern, in for / while / for-in / nested loops, in a function (called from a rule body, a pattern, a loop; with the loop inside the function), and in BEGIN / END / BEGINFILE / ENDFILE; every well-scoped combination on short inputs, plus long inputs where the exit path is taken at every (second) record (quick: 4097-4500 records for every place x exit path and some of 10 000; thorough: 4095-50 000); after the match every record prints `n is unknown` for all pattern names. Oracle (implementation only): expected class, depth 0, every name unbound again, no call-depth error, and the output block of a record is a function of the record's value alone (history independence); model comparison on class, out, depth",
+		Gen:  c08GenExitPaths,
+	})
 	register(Family{
 		Name: "call-binding", Prop: "C08",
 		Rule: "function of arity 0-4 called with 0-6 arguments (scalars, containers, unset, side-effecting calls) in one of 27 expression positions (operands, arguments, conditions, rule patterns, print lists, index, match subject/bodies, literals, method arguments, for clauses, return expressions); four return shapes; oracle: exact expected output (arguments evaluated left to right incl. surplus, parameters by position, missing = null, value of the executed return else null), depth 0",
